@@ -22,7 +22,7 @@ ASSUMPTIONS = [
     'ListTrials is compared as an id-sorted list',
     'in-process servicer (context=None); over-the-wire behaviour is C08',
 ]
-REQUIRED_COUNTERS = ['calls_checked', 'illegal_calls_checked', 'completed_trial_rewrites_checked',
+REQUIRED_COUNTERS = ['lifecycle_tails_run', 'calls_checked', 'illegal_calls_checked', 'completed_trial_rewrites_checked',
                      'datastore_writes_checked', 'failed_calls_state_compared', 'snapshots_compared']
 MIN_DISTINCT = {'quick': 150, 'thorough': 3000}
 BACKENDS = ['ram', 'sqlmem']
@@ -69,6 +69,21 @@ def run_program(ctx, index, backend, calls=None, weights=None, profile=None, pro
                     {'backend': backend, 'calls': executed[:], 'index': index}, d)
     if disc:
       break
+  else:
+    if calls is None and index % 3 == 1:
+      # scripted continuation against the state reached: one trial through the rest of its life
+      tail = rpcprog.lifecycle_tail(rng, runner.model)
+      if tail:
+        ctx.count('lifecycle_tails_run')
+      for call in tail:
+        executed.append(call)
+        disc = runner.step(call)
+        for d in disc:
+          mech = (prop_classify or classify)(d, call)
+          ctx.violation(mech, f'{d["kind"]} at step {d["step"]} ({d["op"]}, pre={d["pre"]}, outcome={d["outcome"]}): {d["what"]}'[:600],
+                        {'backend': backend, 'calls': executed[:], 'index': index}, d)
+        if disc:
+          break
   return runner, executed
 
 
